@@ -506,7 +506,7 @@ theorem modProps_no_value (cfg : Cfg Val) (n : Name) :
     · intro d' hd' hn'; exact hall d' (List.mem_cons_of_mem _ hd') hn'
 
 /-- in a list with distinct names, a name determines the element -/
-theorem eq_of_name_nodup {α : Type} (f : α → Name) :
+theorem name_determines {α : Type} (f : α → Name) :
     ∀ (l : List α), (l.map f).Nodup → ∀ a ∈ l, ∀ b ∈ l, f a = f b → a = b := by
   intro l
   induction l with
@@ -673,7 +673,7 @@ theorem start_matches (ops : Ops DT Val) (c : ClassDesc DT Val) (cfg : Cfg Val) 
               obtain ⟨insts'', pdb, hpdb, haddb⟩ := run_mem' ops cfg c.params [] outs hrun ob hob
               have hnameb := addParam_name ops _ _ _ _ haddb
               have hpdb_eq : pdb = bd :=
-                eq_of_name_nodup (fun p : ParamDesc DT Val => p.name) c.params wf.paramNames pdb hpdb bd hbd_mem
+                name_determines (fun p : ParamDesc DT Val => p.name) c.params wf.paramNames pdb hpdb bd hbd_mem
                   (by rw [← hnameb, hb_name, hbd_name])
               subst hpdb_eq
               have hblim : pdb.limit = none := wf.bases pd hpd (by simp [hlim]) pdb hpdb hbd_name
